@@ -39,7 +39,7 @@ static void gen(Plan* p, Rng* r, int tier, long idx) {
         int x = (int)rng_below(r, 100);
         if (x < 62) plan_add(p, "set", 4, (int64_t)rng_below(r, 3), (int64_t)rng_below(r, 64), (int64_t)rng_below(r, 11), (int64_t)(rng_u64(r) >> 33));   /* target(0 cctx,1 params,2 dctx), param idx, value code, random */
         else if (x < 72) plan_add(p, "reset", 2, (int64_t)rng_below(r, 3), (int64_t)rng_range(r, 1, 3));
-        else if (x < 80) plan_add(p, "begin", 1, (int64_t)rng_below(r, 2));
+        else if (x < 80) plan_add(p, "begin", 1, (int64_t)rng_below(r, 3));   /* 0 compression frame (continue), 1 decompression frame, 2 compression frame left with output pending (flush into 16 bytes: the stream sits in its flush stage) */
         else if (x < 87) plan_add(p, "end", 1, (int64_t)rng_below(r, 2));
         else if (x < 91) plan_add(p, "err", 1, (int64_t)rng_below(r, 2));
         else if (x < 95) plan_add(p, "simple", 0);
@@ -112,7 +112,7 @@ static void exec(const Plan* p) {
                     if (now != fr) sim_violation("reset_not_default", "%s: %s reads %d, a fresh object reads %d", what, tgt == 2 ? k_d[k].name : k_c[k].name, now, fr); }
             }
         } else if (!strcmp(o->kind, "begin")) {
-            if ((int)o->a[0] == 0 && !cmid && before.c[27] == 0 /* with stableInBuffer the first small call does not start the frame yet */) { ZSTD_inBuffer in; ZSTD_outBuffer out; size_t r; in.src = s.in; in.size = s.in_size / 2 + 1; in.pos = 0; out.dst = dst; out.size = cap; out.pos = 0; r = ZSTD_compressStream2(c, &out, &in, ZSTD_e_continue); if (!ZSTD_isError(r)) cmid = 1; else ZSTD_CCtx_reset(c, ZSTD_reset_session_only); }
+            if (((int)o->a[0] == 0 || (int)o->a[0] == 2) && !cmid && before.c[27] == 0 /* with stableInBuffer the first small call does not start the frame yet */) { ZSTD_inBuffer in; ZSTD_outBuffer out; size_t r; int const pend = (int)o->a[0] == 2 && before.c[28] == 0 /* not with stableOutBuffer */; in.src = s.in; in.size = s.in_size / 2 + 1; in.pos = 0; out.dst = dst; out.size = pend ? (cap < 16 ? cap : 16) : cap; out.pos = 0; r = ZSTD_compressStream2(c, &out, &in, pend ? ZSTD_e_flush : ZSTD_e_continue); if (!ZSTD_isError(r)) { cmid = 1; if (pend && r > 0) sim_probe("c16.frame_with_output_pending"); } else ZSTD_CCtx_reset(c, ZSTD_reset_session_only); }
             else if ((int)o->a[0] == 1 && !dmid && zfn > 8) { ZSTD_inBuffer in; ZSTD_outBuffer out; size_t r; uint8_t tmp[64]; in.src = zf; in.size = 7; in.pos = 0; out.dst = tmp; out.size = sizeof tmp; out.pos = 0; r = ZSTD_decompressStream(d, &out, &in); if (!ZSTD_isError(r)) { dmid = 1; dpos = in.pos; } else ZSTD_DCtx_reset(d, ZSTD_reset_session_only); }
             snap(c, cp, d, &after); inv_unchanged(&before, &after, "starting a frame (parameters are sticky)");
         } else if (!strcmp(o->kind, "end")) {
